@@ -357,11 +357,9 @@ class ReplaceIf(ast.NodeTransformer):
         if (self.inCall):
             raise TranspilationException('Ternary "if" inside a call not supported')
             
-        """Transforms Python ternary if-expressions into VerilogIf"""
-        condition = self.visit(node.test)
-        positive = [self.visit(node.body)]  # Wrap in list to match VerilogIf structure
-        negative = [self.visit(node.orelse)]
-        return VerilogIf(condition, positive, negative)
+        # A ternary is an expression: an if statement can not stand inside an
+        # assignment. Keep the node, ReplaceIfExp turns it into the ?: operator
+        return self.generic_visit(node)
 
 class ReplaceMatch(ast.NodeTransformer):
     """Transforms Python match/case into VerilogCase."""
@@ -1142,7 +1140,7 @@ class VerilogTernaryConditionalOperator(ast.AST):
         self._fields = tuple(['condition', 'positive', 'negative'])
 
     def toVerilog(self):
-        return '({}) ? {} : {}'.format(Python2VerilogTranspiler.toVerilog(self.condition),
+        return '(({}) ? ({}) : ({}))'.format(Python2VerilogTranspiler.toVerilog(self.condition),
             Python2VerilogTranspiler.toVerilog(self.positive),
             Python2VerilogTranspiler.toVerilog(self.negative))
 
